@@ -23,6 +23,7 @@ CONSTANT Tier
          | "dollar" ($ arg) | "gt" (> arg) | "hash" (# arg) | "code" ([arg]) | "plain" (inside blocks)  *)
 L(txt, lex, n, lang, cfg, arg) == [txt |-> txt, lex |-> lex, n |-> n, lang |-> lang, cfg |-> cfg, arg |-> arg]
 Blank      == L("", "blank", 0, "", "", "")
+WsOnly     == L("  ", "blank", 0, "", "", "")          \* blanks only: an empty line for every purpose (no content has started)
 Para       == L("Some words", "title", 0, "", "", "Some words")
 ParaU      == L("@P@bung macht", "title", 0, "", "", "@P@bung macht")     \* a paragraph whose first letter is not ASCII ("@P@" is rendered as U-umlaut)
 Header     == L("# A Title", "title", 0, "", "", "A Title")
@@ -121,6 +122,8 @@ RefFold(st, doc, i, n) ==
     ELSE RefFold(RefStep(st, doc[i], i = 1, i = n,
                          \E j \in (i + 1)..n : doc[j].k = "scrut" /\ HasCmd(doc[j].lines)), doc, i + 1, n)
 
+\* the document configuration is read iff there is a (terminated) front-matter
+HasFm(doc) == \E x \in 1..Len(doc) : doc[x].k = "fm" /\ doc[x].term
 MdRef(doc) == RefFold([ln |-> 0, run |-> <<>>, title |-> <<>>, fresh |-> FALSE, tests |-> <<>>,
                        must_err |-> FALSE, may_err |-> FALSE], doc, 1, Len(doc))
 
@@ -136,11 +139,13 @@ ClosesFence(l) == l.lex = "fence" /\ l.n >= fence /\ l.lang = "" /\ l.cfg = ""
 
 Consume == pos' = pos + 1
 
-TopFrontMatter == mode = "top" /\ ~AtEnd /\ pos = 1 /\ Line.lex = "dash"
+\* the front-matter may be preceded by empty / blank-only lines: it opens as long as no content has started
+NoContentBefore == \A x \in 1..(pos - 1) : lines[x].lex = "blank"
+TopFrontMatter == mode = "top" /\ ~AtEnd /\ NoContentBefore /\ Line.lex = "dash"
                   /\ mode' = "fm" /\ Consume
                   /\ UNCHANGED <<doc, lines, fence, cur, curcfg, curcom, startln, run, title, fresh, tests, err>>
 TopLine ==
-    /\ mode = "top" /\ ~AtEnd /\ ~(pos = 1 /\ Line.lex = "dash") /\ ~OpensFence(Line)
+    /\ mode = "top" /\ ~AtEnd /\ ~(NoContentBefore /\ Line.lex = "dash") /\ ~OpensFence(Line)
     /\ IF Line.lex = "title"
        THEN run' = Append(run, Line.arg) /\ title' = Append(run, Line.arg) /\ fresh' = TRUE
        ELSE run' = <<>> /\ UNCHANGED <<title, fresh>>
@@ -211,7 +216,7 @@ Bodies == { <<Cmd("c1")>>,
             <<Cmd("c1"), Cont("c2"), Plain("out1 (glob)"), Plain("out2 (?)")>>,
             <<Plain("out only")>>,                        \* no command: error
             <<>> }                                        \* empty block
-ProseLines == {Blank, Para, ParaU, Header, Item, Tick1, Tick2, Rule}
+ProseLines == {Blank, WsOnly, Para, ParaU, Header, Item, Tick1, Tick2, Rule}
 ProseSegs  == {Prose(l) : l \in ProseLines}
 VerbSegs   == {Verbatim(3, "bash", b, t) : b \in {<<>>, <<Plain("echo")>>, <<Cmd("not a test")>>}, t \in BOOLEAN}
               \cup {Verbatim(4, "markdown", b, t) :
@@ -250,11 +255,13 @@ Bodies2 == UNION {[1..n -> Segs] : n \in 0..2}
 Bodies3 == [1..3 -> IF Tier = "quick" THEN Core ELSE Segs]
 \* a `---` line is only generated where it is unambiguously a horizontal rule: after real content, and not
 \* after a front-matter that was never closed
-NoLeadingRule(d) == \A i \in 1..Len(d) : d[i] = Prose(Rule) => \E j \in 1..(i - 1) : d[j] # Prose(Blank)
+NoLeadingRule(d) == \A i \in 1..Len(d) : d[i] = Prose(Rule) => \E j \in 1..(i - 1) : d[j] \notin {Prose(Blank), Prose(WsOnly)}
 NoRule(d) == \A i \in 1..Len(d) : d[i] # Prose(Rule)
 Docs == {d \in Bodies2 \cup Bodies3 : WellPlaced(d) /\ NoLeadingRule(d)}
         \cup {<<FrontMatter(TRUE)>> \o d : d \in {x \in Bodies2 : WellPlaced(x) /\ NoLeadingRule(x)}}
         \cup {<<FrontMatter(FALSE)>> \o d : d \in {x \in Bodies2 : WellPlaced(x) /\ NoRule(x)}}
+        \* a front-matter after an empty / a blank-only line
+        \cup {<<Prose(b), FrontMatter(TRUE)>> \o d : b \in {Blank, WsOnly}, d \in {x \in Bodies2 : Len(x) <= 1 /\ WellPlaced(x) /\ NoLeadingRule(x)}}
 
 Init == /\ doc \in Docs
         /\ lines = RenderDoc(doc) /\ pos = 1 /\ mode = "top" /\ fence = 0 /\ cur = <<>> /\ curcfg = "" /\ curcom = 0
